@@ -50,6 +50,7 @@ pub fn check_one_target(source: &str, config: &str, lua51_target: bool) -> Resul
 }
 
 pub fn run_behaviour(ctx: &RunCtx, phase: &str, spec: &BehaviourSpec) {
+    behave::ALLOW_LUAU_ESCAPES.store(ctx.avoid("unicode-escape-not-lua51"), std::sync::atomic::Ordering::Relaxed);
     ctx.search(phase, spec.cases, spec.tape_len, |tape, st| {
         let mut t = Tape::new(tape);
         let prog = gen_program(&mut t, &spec.opts);
